@@ -38,7 +38,7 @@ def scenarios(tier, seed):
                     b2 = -0.5        # y = 1/(1+t) blows up at t = -1
                 else:
                     b2 = b
-                for hist in range(7):
+                for hist in range(8):
                     n += 1
                     if not thorough and (n + seed) % 3:
                         continue
@@ -67,6 +67,13 @@ def scenarios(tier, seed):
                             continue
                         sc["ops"] = [{"op": "integrate"}, {"op": "integrate", "t": Q(0.45), "events": [{"kind": "time", "c": Q(0.8)}, {"kind": "time", "c": Q(0.6), "dir": -1}]},
                                      {"op": "query"}, {"op": "integrate", "t": Q(0.9)}]
+                    elif hist == 7:
+                        # the system's CONSTANTS are replaced between two calls: the continued call must start from the slope of the
+                        # right-hand side with the constants in force (finding f34)
+                        if prob != "osc":
+                            continue
+                        sc["problem"], sc["constants"] = "osck", {"k": 1.0}
+                        sc["ops"] = [{"op": "integrate", "t": Q(0.5)}, {"op": "set", "what": "constants", "v": {"k": 3.0}}, {"op": "integrate"}]
                     else:
                         # an EVENT FUNCTION raises in the middle of the run (event handling is the one place that consults the dense
                         # output while the run is in progress); a user lookup after the failure, then the run is resumed without events
